@@ -64,13 +64,15 @@ def files(rng, tier):
             fr = []
             for t in tracks:
                 n = [3, 2, 4, 3, 5][f] if i == 0 else rng.choice([1, 2, 3, 4, 5])
-                durs = [rng.choice([10, 20]) for _ in range(n)]
-                fr.append({"track_id": t["id"], "base": rng.choice(["moof", "explicit"]), "tfhd_dur": None, "tfdt": clock[t["id"]], "durations": durs,
-                           "sizes": [rng.choice([1, 4, 9]) for _ in range(n)], "cts": None, "k0": cnt[t["id"]]})
+                # durations: per sample, from the tfhd default of this fragment, or from the movie-level (trex) default 512 — mixed within one track
+                dmode = "per" if i == 0 else rng.choice(["per", "tfhd", "trex", "trex"])
+                durs = [rng.choice([10, 20]) for _ in range(n)] if dmode == "per" else [300] * n if dmode == "tfhd" else [512] * n
+                fr.append({"track_id": t["id"], "base": rng.choice(["moof", "explicit"]), "tfhd_dur": 300 if dmode == "tfhd" else None, "tfdt": clock[t["id"]],
+                           "durations": durs if dmode == "per" else None, "sizes": [rng.choice([1, 4, 9]) for _ in range(n)], "cts": None, "k0": cnt[t["id"]]})
                 cnt[t["id"]] += n
                 clock[t["id"]] += sum(durs)
             frags.append(fr)
-        init, fin = isogen.build_fragmented(tracks, frags, trex_dur=0)
+        init, fin = isogen.build_fragmented(tracks, frags, trex_durs={t["id"]: 512 for t in tracks})
         media, _ = fin(len(init))
         out.append(("frag%d" % i, init + media, True))
     for n, d in readcheck.canned():
